@@ -286,6 +286,27 @@ func c20Scenario(r *vf.Run, t *testing.T, id string, rng *rand.Rand, g genOpts) 
 			}
 		}
 	}
+	// A pseudo-header left alone with an empty value (an empty copy was inserted and another mutation removed the real
+	// one) has a value outside the token grammar, which the property leaves out (RFC 7540 does not fix its treatment):
+	// give it a valid value again. An empty :path stays, the property names it.
+	{
+		count := map[string]int{}
+		for _, f := range bad.Pseudo {
+			count[f.Name]++
+		}
+		for i, f := range bad.Pseudo {
+			if f.Value == "" && count[f.Name] == 1 {
+				switch f.Name {
+				case ":method":
+					bad.Pseudo[i].Value = "GET"
+				case ":scheme":
+					bad.Pseudo[i].Value = "https"
+				case ":authority":
+					bad.Pseudo[i].Value = "refilled.example"
+				}
+			}
+		}
+	}
 	// the verdict comes from the predicate, not from the labels (two mutations can cancel)
 	wfReason := ""
 	wellFormed, wfReason = wellFormedRequest(append(append([]F{}, bad.Pseudo...), bad.Fields...), bad.Trailers, len(bad.Body))
